@@ -340,9 +340,18 @@ class MoleculeResolver:
         for edge, bonding in bondings.items():
             if not bonding[0].startswith('!'):
                 continue
-            # let's squash two nodes
-            node_to_keep = squashed.get(edge[0], edge[0])
-            node_to_remove = squashed.get(edge[1], edge[1])
+            # let's squash two nodes; a node that was squashed before is
+            # represented by the node it was squashed into, which may itself
+            # have been squashed in the meantime
+            node_to_keep = edge[0]
+            while node_to_keep in squashed:
+                node_to_keep = squashed[node_to_keep]
+            node_to_remove = edge[1]
+            while node_to_remove in squashed:
+                node_to_remove = squashed[node_to_remove]
+            # both atoms are the same one already
+            if node_to_keep == node_to_remove:
+                continue
             squashed[node_to_remove] = node_to_keep
             self.molecule = nx.contracted_nodes(self.molecule,
                                                 node_to_keep,
